@@ -29,7 +29,7 @@ func newGen(rng *common.Rng, d string) *gen {
 	n := rng.Range(4, 7)
 	for len(g.pool) < n {
 		c := masterComps[rng.Pick(len(masterComps))]
-		if strings.Contains(c, d) {
+		if d != "" && strings.Contains(c, d) {
 			c = strings.ReplaceAll(c, d, "_")
 		}
 		if (c == "p%t" || c == "s*r") && !rng.Chance(0.3) {
@@ -181,7 +181,27 @@ func (g *gen) mutateName(n string) string {
 	}
 }
 
+// splitLevels: the levels a connector would announce for the name (flat namespace: the name is its only level)
+func (g *gen) splitLevels(n string) ([]string, bool) {
+	if n == "" {
+		return nil, false
+	}
+	if g.d == "" {
+		return []string{n}, true
+	}
+	if strings.HasPrefix(n, g.d) || strings.HasSuffix(n, g.d) || strings.Contains(n, g.d+g.d) {
+		return nil, false
+	}
+	return strings.Split(n, g.d), true
+}
+
 func (g *gen) levels() []string {
+	if g.d == "" { // flat namespace: a connector announces single-level names
+		if g.rng.Chance(0.08) {
+			return []string{flipCase("INBOX", g.rng)}
+		}
+		return []string{g.fresh()}
+	}
 	n := g.depth()
 	if n > 3 && g.rng.Chance(0.5) {
 		n = 2
@@ -203,8 +223,8 @@ func (g *gen) levelsNear(st *refState) []string {
 		if g.rng.Chance(0.4) {
 			n += g.d + g.comp()
 		}
-		if n != "" && !strings.HasPrefix(n, g.d) && !strings.HasSuffix(n, g.d) && !strings.Contains(n, g.d+g.d) {
-			return strings.Split(n, g.d)
+		if lv, ok := g.splitLevels(n); ok {
+			return lv
 		}
 	}
 	return g.levels()
@@ -240,7 +260,7 @@ func (g *gen) mutation(st *refState) op {
 		} else if n, ok := g.rowName(st, true); ok && g.rng.Chance(0.3) {
 			// a sibling whose name merely begins with the characters of an existing name ("a" and "ab", "a" and "a.b")
 			o.A = n + []string{"b", "x", " ", ".", "-"}[g.rng.Pick(5)]
-			if strings.Contains(o.A, g.d) {
+			if g.d != "" && strings.Contains(o.A, g.d) {
 				o.A = n + "b"
 			}
 		}
@@ -296,17 +316,14 @@ func (g *gen) mutation(st *refState) op {
 		if o.Target == "" {
 			return o
 		}
-		valid := func(n string) bool {
-			return n != "" && !strings.HasPrefix(n, g.d) && !strings.HasSuffix(n, g.d) && !strings.Contains(n, g.d+g.d)
-		}
 		switch y := g.rng.Pick(100); {
 		case y < 30: // nothing but the case of some letters changes (names are case-sensitive, only a byte-equal name is a no-op)
-			if n := flipSome(o.Target, g.rng); valid(n) {
-				o.Levels = strings.Split(n, g.d)
+			if lv, ok := g.splitLevels(flipSome(o.Target, g.rng)); ok {
+				o.Levels = lv
 			}
 		case y < 40: // onto a spelling of INBOX at the first level
 			o.Levels = []string{flipCase("INBOX", g.rng)}
-			if g.rng.Chance(0.6) {
+			if g.rng.Chance(0.6) && g.d != "" {
 				o.Levels = append(o.Levels, g.comp())
 			}
 		case y < 60: // a mailbox that has inferiors (a connector update moves that one mailbox only)
@@ -324,8 +341,8 @@ func (g *gen) mutation(st *refState) op {
 			}
 			if len(c) > 0 {
 				o.Target = c[g.rng.Pick(len(c))]
-				if n := flipSome(o.Target, g.rng); g.rng.Chance(0.4) && valid(n) {
-					o.Levels = strings.Split(n, g.d)
+				if lv, ok := g.splitLevels(flipSome(o.Target, g.rng)); g.rng.Chance(0.4) && ok {
+					o.Levels = lv
 				}
 			}
 		}
@@ -378,7 +395,13 @@ func (g *gen) pattern(base string, st *refState) (string, string) {
 	case x < 21:
 		f = base // exact name
 	default:
-		lv := strings.Split(base, g.d)
+		lv := []string{base}
+		if g.d != "" {
+			lv = strings.Split(base, g.d)
+		} else if ru := []rune(base); len(ru) > 2 { // flat: cut the name into pieces so that wildcards land anywhere
+			k := g.rng.Range(1, len(ru)-1)
+			lv = []string{string(ru[:k]), string(ru[k:])}
+		}
 		for i := range lv {
 			// positions are counted in characters: a wildcard never lands inside a UTF-8 sequence (a pattern arrives in
 			// modified UTF-7, its decoding is always valid UTF-8)
@@ -436,6 +459,12 @@ func (g *gen) pattern(base string, st *refState) (string, string) {
 		}
 	}
 	f = string(b)
+	// a spelling of INBOX cut anywhere into reference and pattern (canon() has to put it together again)
+	if g.rng.Chance(0.03) {
+		n := flipCase("INBOX", g.rng)
+		k := g.rng.Pick(len(n))
+		return n[:k], n[k:]
+	}
 	// a reference that is INBOX in some spelling, with and without the delimiter
 	if g.rng.Chance(0.04) {
 		tail := []string{"%", "*", g.d + "%", g.d + "*", "", g.d}[g.rng.Pick(6)]
@@ -448,7 +477,7 @@ func (g *gen) pattern(base string, st *refState) (string, string) {
 	case y < 70: // at a delimiter: reference with or without the trailing delimiter
 		var pos []int
 		for i := 0; i < len(f); i++ {
-			if f[i] == g.d[0] {
+			if g.d != "" && f[i] == g.d[0] {
 				pos = append(pos, i)
 			}
 		}
@@ -500,8 +529,15 @@ func script(d string) []op {
 		}
 		return o
 	}
-	lv := func(l ...string) []string { return l }
+	lv := func(l ...string) []string {
+		if d == "" { // flat namespace: single-level connector names
+			return []string{strings.Join(l, "")}
+		}
+		return l
+	}
 	return []op{
+		// INBOX in any spelling, in the pattern, split over reference and pattern, as the reference (before any "%")
+		mk("LIST", "", "inbox"), mk("LIST", "inb", "OX"), mk("LSUB", "", "iNbOx"), mk("LIST", "iNBox", ""), mk("LIST", "", "InBo*"),
 		// siblings that share leading characters must not move with the renamed mailbox
 		mk("CREATE", "a/b/c"), mk("CREATE", "ab"), mk("CREATE", "a b"), mk("CREATE", "a/bc"), mk("UNSUB", "a/b"),
 		mk("RENAME", "a", "x/y"), mk("LIST", "", "x/%"), mk("LSUB", "", "x/y/%"), mk("LIST", "x", "/y/*"), mk("LIST", "", "a%"),
